@@ -191,6 +191,13 @@ theorem jacobian_is_source (fwd : J6 R → Iso R) (q : J6 R) (eps : R) (i : Nat)
     SrcJac.wrenchOfIsoSrc w = ((wrenchOfIso w).lin, (wrenchOfIso w).ang) :=
   ⟨jacobianColumnSrc_eq fwd q eps i, wrenchOfIsoSrc_eq w⟩
 
+/-- [G] `LinearAxis::forward` and `Gantry::forward` as the CURRENT source text has them: base * cart translation * robot pose,
+the translation along the axis named by the index (any other index panics: `none`) -/
+theorem linearAxis_gantry_are_source (i : Kin R) (axis : Nat) (base : Iso R) (d : R) (tr : V3 R) (q : J6 R) :
+    SrcWrap.linearAxisForwardSrc i axis base d q = linearAxisForward i axis base d q ∧
+    SrcWrap.gantryForwardSrc i base tr q = gantryForward i base tr q :=
+  ⟨linearAxisForwardSrc_eq i axis base d q, gantryForwardSrc_eq i base tr q⟩
+
 /-- [G] `Constraints::compliant` / `Constraints::filter` as the CURRENT source text defines them -/
 theorem constraints_compliant_is_source (c : Constraints R) (a : J6 R) (l : List (J6 R)) :
     SrcOpw.compliantSrc c a = c.compliant a ∧ SrcOpw.filterSrc c l = c.filter l :=
